@@ -647,7 +647,7 @@ func (ev *evaluator) eval(s *Sym, hint string) val {
 	case "len":
 		x := s.Kids[0]
 		// len of a string-valued term is computed; len of a collection is a base int term
-		if x.Kind == "string" || x.Op == "pred" {
+		if x.Kind == "string" || x.Op == "pred" || (x.Kind == "" && ev.kinds != nil && ev.kinds[ev.baseKey(x)] == "string") {
 			return val{k: 'i', i: int64(len(ev.eval(x, "string").s))}
 		}
 		if x.Op == "collect" {
